@@ -1,4 +1,4 @@
-import Sudachi.Model.Layers
+import Sudachi.Model.LayersLoad
 /-!
 # Line protocol of property C12 (parsers / printers around `Model/Layers.lean`)
 
@@ -12,6 +12,10 @@ C12 stack  idx=.. sysrows=<row;..> plug=<a|f:pos;..> base=sys|plug pre=all|sys u
              row  = surface:headword:reading:mode:pos:A:B:W      pos = c1.c2.c3.c4.c5.c6 (interned strings)
              A, B = `*` or units joined by `/`;  unit = U<n> | <n> | I,<surface>,<pos>,<reading>
              W    = `*` or U<n> | <n> joined by `/`
+           optional (load order): dim=<n> inh=<l.r,..>|<l.r,..> (one list per connection-cost plugin, `-` = none)
+             costs=<c,..>|<c,..>|.. (stored cost of every row, system dictionary first)
+             est=<nlex>.<ninh>.<surface>:<cost>.<len>|E;..   (what tokenizing <surface> gives over the dictionary that holds
+             <nlex> lexicons and <ninh> inhibited cells: internal cost and number of morphemes, `E` = EosBosDisconnect)
 ```
 -/
 namespace Layers
@@ -30,6 +34,9 @@ def showErr : Err → String
   | .posLimit => "PosLimit"
   | .invalidSize => "InvalidSize"
   | .garbled => "Garbled"
+  | .invalidData => "InvalidData"
+  | .noOovPlugin => "NoOovPlugin"
+  | .disconnect => "Disconnect"
 
 def showO {α : Type} (f : α → String) : Outcome α → String
   | .ok a => f a
@@ -194,6 +201,52 @@ def wordLines (d : Dict) : List Lexicon → Nat → List String
          | .err e => "err:" ++ showErr e
          | .panic _ => "PANIC"))) ++ wordLines d ls (di + 1)
 
+/-- `dim=`: size of the (square) connection matrix; only read when `inh=` lists a plugin -/
+def dimOf (toks : List (List Char)) : Nat :=
+  match (kv? toks "dim").bind nat? with
+  | some n => n
+  | none => 0
+
+/-- `inh=`: one pair list per connection-cost plugin -/
+def connOf (toks : List (List Char)) : List (List (Nat × Nat)) :=
+  match kv? toks "inh" with
+  | none => []
+  | some s => if s = ['-'] then [] else
+    (splitOn '|' s).map (fun pl => (items ',' pl).filterMap (fun p =>
+      match splitOn '.' p with
+      | [a, b] => (match nat? a, nat? b with | some a, some b => some (a, b) | _, _ => none)
+      | _ => none))
+
+def costsOf (toks : List (List Char)) : List (List Int) :=
+  match kv? toks "costs" with
+  | none => []
+  | some s => (splitOn '|' s).map (fun l => (items ',' l).filterMap int?)
+
+/-- `est=` table: key (lexicons in the state, inhibited cells in the state, surface) ↦ internal cost and morpheme count, `none` = the
+analysis fails with `EosBosDisconnect` -/
+def estOf (toks : List (List Char)) : List ((Nat × Nat × Nat) × Option (Int × Nat)) :=
+  match kv? toks "est" with
+  | none => []
+  | some s => (items ';' s).filterMap (fun e =>
+    match splitOn ':' e with
+    | [k, v] =>
+      (match (splitOn '.' k).map nat? with
+       | [some a, some b, some c] =>
+         if v = ['E'] then some ((a, b, c), none)
+         else (match splitOn '.' v with
+           | [x, y] => (match int? x, nat? y with | some x, some y => some ((a, b, c), some (x, y)) | _, _ => none)
+           | _ => none)
+       | _ => none)
+    | _ => none)
+
+/-- the tokenizer as the harness measured it on the really loaded prefix dictionaries: a function of the STATE it is asked on
+(number of lexicons, number of inhibited cells) and the surface; a state the harness did not measure has no answer -/
+def estTable (t : List ((Nat × Nat × Nat) × Option (Int × Nat))) (st : LoadState) (surface : Nat) : Outcome (Int × Nat) :=
+  match t.find? (fun e => e.1 == (st.dict.set.lexicons.length, st.inhibited.length, surface)) with
+  | some (_, some r) => .ok r
+  | some (_, none) => .err .disconnect
+  | none => .panic "no estimate for this state"
+
 def handleStack (toks : List (List Char)) : String :=
   match (kv? toks "sysrows").bind parseRows, kv? toks "plug", kv? toks "base", kv? toks "users", (kv? toks "wids").bind natList? with
   | some sysrows, some plug, some base, some users, some wids =>
@@ -212,7 +265,8 @@ def handleStack (toks : List (List Char)) : String :=
           -- the dictionary the user builder is given: the system dictionary loaded without / with the plugins
           let baseG : Outcome (List Pos) :=
             if base = "plug".toList then
-              (match loadPlugins sysPos plugs with
+              if !((connOf toks).all (pairsValid (dimOf toks) (dimOf toks))) then .err .invalidData
+              else (match loadPlugins sysPos plugs with
                | .ok (g, _) => .ok g
                | .err e => .err e
                | .panic w => .panic w)
@@ -229,17 +283,28 @@ def handleStack (toks : List (List Char)) : String :=
               | .err e => "err:Load:" ++ showErr e
               | .panic _ => "PANIC:Load"
               | .ok us =>
-                match load sysPos ⟨sysB.words, 255, []⟩ plugs us with
+                -- the remaining load steps (connection edits, cost estimates), when the line carries them
+                let dim := dimOf toks
+                let conn := connOf toks
+                let costs := costsOf toks
+                let table := estOf toks
+                let userDics := (us.zip (urows.zip (costs.drop 1))).map (fun x =>
+                  (⟨x.1.1, x.1.2, (x.2.1.zip x.2.2).map (fun rc => ⟨rc.1.headword, rc.2⟩)⟩ : UserDic))
+                let full := (kv? toks "costs").isSome
+                let usersF : List UserDic := if full then userDics else us.map (fun u => ⟨u.1, u.2, []⟩)
+                match loadFull (estTable table) sysPos ⟨sysB.words, 255, []⟩ (match costs with | c :: _ => c | [] => []) dim dim conn plugs 1 usersF with
                 | .err e => "err:Load:" ++ showErr e
                 | .panic _ => "PANIC:Load"
-                | .ok d =>
+                | .ok st =>
+                  let d := st.dict
                   "ok pos=" ++ joinWith ";" (d.posList.map showPos) ++
                   " words=" ++ joinWith ";" (wordLines d d.set.lexicons 0) ++
                   " m=" ++ joinWith ";" (wids.map (fun raw =>
                     match morphInfo d raw with
                     | .ok (did, pid) => toString did ++ ":" ++ toString pid ++ ":" ++ showPosAt d.posList pid
                     | .err e => "err:" ++ showErr e
-                    | .panic _ => "PANIC"))
+                    | .panic _ => "PANIC")) ++
+                  (if full then " cost=" ++ joinWith "|" (st.costs.map showInts) ++ " inh=" ++ toString st.inhibited.length else "")
     | _, _ => "bad-op"
   | _, _, _, _, _ => "bad-op"
 
